@@ -51,6 +51,10 @@ def templates(cfg):
     T("names.overwritten_right", lambda p, t, u: t >> p.inner_join(u >> p.mutate(x=u.x + 1), t.a == u.a) >> p.mutate(old=u.x))
     T("names.suffixed_exists_left", lambda p, t, u: t >> p.rename({"b": "a_u"}) >> p.inner_join(u, t.a == u.a))
     T("names.join_then_select_right", lambda p, t, u: t >> p.left_join(u, t.a == u.a) >> p.select(u.x, t.b, u.a))
+    T("names.numeric_suffix_needed", lambda p, t, u: t >> p.rename({"c": "x_u"}) >> p.inner_join(u, t.a == u.a), TU3)
+    T("names.numeric_suffix_nonclashing", lambda p, t, u: t >> p.rename({"c": "x_u"}) >> p.left_join(u, (t.a == u.a) & (t.b == u.b)), TU3)
+    T("names.suffix_chain", lambda p, t, u: t >> p.rename({"b": "a_u", "c": "a_u_1"}) >> p.inner_join(u >> p.select(u.a), t.a == u.a), TU3)
+    T("names.only_join_cols_clash", lambda p, t, u: t >> p.select(t.a, t.c) >> p.left_join(u >> p.select(u.a, u.x), t.a == u.a), TU3)
     # joins after other verbs / of derived tables
     T("left.mutated_key", lambda p, t, u: t >> p.mutate(k=t.a * 2) >> p.left_join(u, p.C.k == u.a), tags=("nonlinear",))
     def summarized_right(p, t, u):
